@@ -1,8 +1,11 @@
 package main
 
 import (
+	"errors"
 	"fmt"
 	"math/rand"
+	"os"
+	"runtime"
 	"strings"
 
 	"verif/lib"
@@ -19,7 +22,7 @@ const c17GoodProfile = "profile: good\nprefixes:\n  ex: http://ex.org/\nviolatio
 // Valid JSON-LD without nodes yields a conforming report.
 func c17(tier string) {
 	ctx := lib.NewCtx("C17", tier)
-	ctx.Rule = "deterministic seeded hostile inputs: structure-aware YAML mutations (16 operators) of fixture and generated profiles, hand-written degenerate profiles, byte-level damage; JSON tree mutations / JSON-LD keyword type confusion / source-map type confusion of fixture and generated data, degenerate documents, byte-level damage; sampled cross product (hostile x good, good x hostile, hostile x hostile) through Validate, ValidateWithConfiguration, CompileProfile, ValidateCompiled, ValidateCompiledWithConfiguration, with and without an event channel; every call runs under recover() in a worker process that records the case on disk first; " +
+	ctx.Rule = "deterministic seeded hostile inputs: structure-aware YAML mutations (16 operators) of fixture and generated profiles, hand-written degenerate profiles, byte-level damage; JSON tree mutations / JSON-LD keyword type confusion / source-map type confusion of fixture and generated data, degenerate documents, byte-level damage; failure bursts (40 calls failing in one way - 10 input-driven kinds and an injected panic / error at each of the 7 stages - each followed by an ordinary validation that must return what it returned before); sampled cross product (hostile x good, good x hostile, hostile x hostile) through Validate, ValidateWithConfiguration, CompileProfile, ValidateCompiled, ValidateCompiledWithConfiguration, with and without an event channel; every call runs under recover() in a worker process that records the case on disk first; " +
 		"non-trivial & distinct = distinct (profile text, data text, entry point) whose input is not a pristine fixture"
 	ctx.Assumptions = []string{
 		"inputs are at most 64 KiB",
@@ -108,6 +111,98 @@ func c17(tier string) {
 		}
 	}
 	entries := []string{"Validate", "ValidateWithConfiguration", "CompileProfile", "ValidateCompiled", "ValidateCompiledWithConfiguration"}
+	// failure bursts: 40 calls that fail in the same way, one class after the other, each followed by an ordinary
+	// validation that must still return the report it returned before the bursts. Whatever a failure path forgets to
+	// give back (a slot, a lock, a pooled buffer) is missing after enough failures of that kind in one process.
+	{
+		noElement := strings.Replace(lib.SourceMapDoc(), `"http://a.ml/vocabularies/document-source-maps#element":[{"@value":"http://ex.org/n1"}],`, "", 1)
+		noValue := strings.Replace(lib.SourceMapDoc(), `,"http://a.ml/vocabularies/document-source-maps#value":[{"@value":"[(7,2)-(9,4)]"}]`, "", 1)
+		noRoot := strings.Replace(lib.SourceMapDoc(), `,"http://a.ml/vocabularies/document#rootLocation":[{"@value":"file:///root.yaml"}]`, "", 1)
+		for _, d := range []string{noElement, noValue, noRoot} {
+			if d == lib.SourceMapDoc() {
+				ctx.Inconclusive("a broken source-map document of the failure bursts equals the intact one (harness)")
+			}
+		}
+		type burst struct{ name, profile, data, fault string }
+		bursts := []burst{
+			{"source-map-entry-without-element", c17GoodProfile, noElement, ""},
+			{"source-map-entry-without-value", c17GoodProfile, noValue, ""},
+			{"source-information-without-root", c17GoodProfile, noRoot, ""},
+			{"data-truncated", c17GoodProfile, `{"@graph":[`, ""},
+			{"data-jsonld-rejected", c17GoodProfile, `{"@context": 5}`, ""},
+			{"data-graph-is-a-number", c17GoodProfile, `{"@graph":5}`, ""},
+			{"profile-yaml-error", "a: [", c11GoodData, ""},
+			{"profile-unknown-prefix", "profile: x\nviolation: [v]\nvalidations:\n  v:\n    targetClass: nope.T\n    propertyConstraints:\n      nope.a:\n        minCount: 1\n", c11GoodData, ""},
+			{"profile-rego-syntax-error", "profile: x\nprefixes: {ex: \"http://ex.org/\"}\nviolation: [v]\nvalidations:\n  v:\n    targetClass: ex.T\n    rego: \"$result = ((\"\n", c11GoodData, ""},
+			{"evaluation-key-collision", c11KeysProfile, `[{"@id":"http://ex.org/n","@type":["http://ex.org/T"],"http://ex.org/tag":[{"@value":"Alpha"},{"@value":"alpha"}]}]`, ""},
+		}
+		for _, st := range c11Stages {
+			bursts = append(bursts, burst{"injected-panic-" + st.hook, c17GoodProfile, c11GoodData, st.hook + ":panic"}, burst{"injected-error-" + st.hook, c17GoodProfile, c11GoodData, st.hook + ":error"})
+		}
+		before := lib.Validate(c17GoodProfile, c11GoodData)
+		for bi, b := range bursts {
+			if ctx.IsShard() && bi%4 != ctx.ShardIndex()%4 && !ctx.First() {
+				continue // every class runs in four of the sixteen workers (all of them in the first)
+			}
+			bq := good
+			if b.profile != c17GoodProfile {
+				bq = lib.Compile(b.profile, nil)
+			}
+			failed := 0
+			for k := 0; k < 40; k++ {
+				entry := []string{"Validate", "ValidateWithConfiguration", "ValidateCompiled", "ValidateCompiledWithConfiguration"}[k%4]
+				var chp *chan events.Event
+				if k%3 == 0 {
+					ch := make(chan events.Event, 64)
+					chp = &ch
+				}
+				ctx.Begin(fmt.Sprintf("burst %s #%d %s", b.name, k, entry), map[string]string{"profile": b.profile, "data": b.data, "entry": entry, "fault": b.fault})
+				if b.fault != "" {
+					os.Setenv("ACV_VERIF_FAULT", b.fault)
+				}
+				var o lib.Outcome
+				switch {
+				case entry == "Validate":
+					o = lib.ValidateDefault(b.profile, b.data, chp)
+				case entry == "ValidateWithConfiguration":
+					o = lib.ValidateCfg(b.profile, b.data, chp, lib.Epoch2000, config.DefaultReportConfiguration())
+				case bq.Failed():
+					o = lib.Outcome{Err: fmt.Errorf("profile cannot be precompiled")}
+				case entry == "ValidateCompiled":
+					o = lib.ValidateCompiledDefault(bq.Q, b.data, chp)
+				default:
+					o = lib.ValidateCompiledCfg(bq.Q, b.data, chp, lib.Epoch2000, config.DefaultReportConfiguration())
+				}
+				if b.fault != "" {
+					os.Unsetenv("ACV_VERIF_FAULT")
+				}
+				ctx.End()
+				ctx.Eval("")
+				rp := map[string]any{"profile": b.profile, "data": b.data, "entry": entry, "fault": b.fault, "burst": b.name, "call": k}
+				if o.Panic != nil {
+					rp["stack"] = o.Stack
+					ctx.Violation("panic", fmt.Sprintf("%s panicked in failure burst %s: %v", entry, b.name, o.Panic), rp)
+				}
+				if o.Failed() {
+					failed++
+					var rte runtime.Error
+					if errors.As(o.Err, &rte) {
+						ctx.Count("burst_calls_answered_from_a_recovered_runtime_error", 1)
+					}
+				}
+			}
+			ctx.Count("failure_bursts_run", 1)
+			ctx.Count("burst_calls_that_failed", failed)
+			ctx.Begin("after burst "+b.name, map[string]string{"profile": c17GoodProfile, "data": c11GoodData, "entry": "Validate"})
+			after := lib.Validate(c17GoodProfile, c11GoodData)
+			ctx.End()
+			ctx.Eval("after-burst/" + b.name)
+			if after.Failed() || after.Report != before.Report {
+				ctx.Violation("changed-after-failures", fmt.Sprintf("after 40 failures of kind %s an ordinary validation no longer returns what it returned before: %s", b.name, clip(after.ErrString(), 200)),
+					map[string]any{"profile": c17GoodProfile, "data": c11GoodData, "burst": b.name})
+			}
+		}
+	}
 	ctx.ForEach(n, func(i int) {
 		r := lib.CaseRand(ctx.Seed, 17, i)
 		var ptext, dtext, pk, dk string
